@@ -132,6 +132,8 @@ inductive CMsg where
   | register (req : Nat) (proc : String)
   | unregister (req reg : Nat)
   | call (req : Nat) (proc : String) (recvProgress : Bool)
+  /-- a CALL of a progressive call (`CallProgressive`): `more` = its `progress` option -/
+  | callChunk (req : Nat) (proc : String) (recvProgress more : Bool)
   | cancel (req : Nat) (mode : String)
   | yield (req : Nat) (progress : Bool)
   | error (typ req : Nat) (err : String)
